@@ -55,3 +55,32 @@ fn c18_instruction_results_obey_the_limit() {
     }
     println!("CASES c18_runs {cases}");
 }
+
+/// the list-carrying constructors (Packed spans, Concat, Log topics) report the node count of their children
+#[test]
+fn c18_list_constructors_report_true_size() {
+    use storage_layout_extractor::vm::value::PackedSpan;
+    let leaf = || RSV::new_value(0, Provenance::Synthetic);
+    let pair = || RSV::new(1, RSVD::Add { left: leaf(), right: leaf() }, Provenance::Synthetic, None);
+    let mut cases = 0;
+    for n in 0..5usize {
+        let kids: Vec<_> = (0..n).map(|i| if i % 2 == 0 { pair() } else { leaf() }).collect();
+        let want: usize = 1 + kids.iter().map(|k| count(k)).sum::<usize>();
+        let spans = kids.iter().enumerate().map(|(i, k)| PackedSpan::new(i * 32, 8 + 8 * i, k.clone())).collect();
+        for (name, v) in [
+            ("Packed", RSV::new(2, RSVD::Packed { elements: spans }, Provenance::Synthetic, None)),
+            ("Concat", RSV::new(2, RSVD::Concat { values: kids.clone() }, Provenance::Synthetic, None)),
+        ] {
+            if v.size() != want || count(&v) != want { witness("C18", "vs.child_size.sum_of_children", format!("{name} with {n} children of {} nodes", want - 1), format!("size()={} nodes={}", v.size(), count(&v)), format!("{want}")); }
+            // and a value built on top of it is culled exactly when it really exceeds the limit
+            let limit = want + 1;
+            let top = RSV::new(3, RSVD::Not { value: v.clone() }, Provenance::Synthetic, Some(limit));
+            if !matches!(top.data(), RSVD::Not { .. }) { witness("C18", "vs.new.culled_iff_over_limit", format!("Not({name} of {want} nodes) with limit {limit}"), "culled".into(), "kept".into()); }
+            cases += 1;
+        }
+        let log = RSV::new(2, RSVD::Log { data: leaf(), topics: kids.clone() }, Provenance::Synthetic, None);
+        if log.size() != want + 1 { witness("C18", "vs.child_size.sum_of_children", format!("Log with {n} topics"), format!("size()={}", log.size()), format!("{}", want + 1)); }
+        cases += 1;
+    }
+    println!("CASES c18_lists {cases}");
+}
